@@ -543,6 +543,13 @@ class FakeKernel:
             if self.line_log is not None:
                 self.line_log.append((os.path.basename(frame.f_code.co_filename), frame.f_lineno, frame.f_code.co_name))
             if self.abort_at is not None and self.lines == self.abort_at and not self.aborted:
+                import linecache
+                if linecache.getline(frame.f_code.co_filename, frame.f_lineno).lstrip().startswith("except "):
+                    # an `except <Name>:` header only executes exception-matching instructions; CPython runs Python-level
+                    # signal handlers at eval-breaker checks (function entry, calls, backward jumps) and there is none on
+                    # such a line: the handler runs at the next line instead
+                    self.abort_at += 1
+                    return self.tracer
                 f = frame
                 indel = False
                 while f is not None:
